@@ -99,7 +99,13 @@ func caseVariant(g *model.Gen, r *model.Rec, what int) (*model.Rec, bool) {
 }
 
 func fromWire(r *model.Rec) dns.RR {
-	rr, _, err := dns.UnpackRR(r.Wire(), 0)
+	// the buffer a record came from is the caller's again once the decoder has returned (a read loop
+	// puts the next message into it): it is overwritten before the record is compared with anything
+	buf := r.Wire()
+	rr, _, err := dns.UnpackRR(buf, 0)
+	for i := range buf {
+		buf[i] = 0xA5
+	}
 	if err != nil {
 		return nil
 	}
